@@ -122,6 +122,9 @@ func semanticErrors() []declCase {
 	add("oneof with an optional scalar member", "oneof Ch {\n  option a ? string\n  option b string\n}\n", false)
 	add("oneof with an array member", "oneof Ch {\n  option a array:string\n}\n", false)
 	add("oneof with a map member", "oneof Ch {\n  option a map:string\n}\n", false)
+	add("service without name", "service {\n  basePath = \"/foo\"\n}\n", true)
+	add("entity status filter unknown", "entity Foo {\n  key fooId key:id62 {\n    primary = true\n  }\n  status ACTIVE\n  query.defaultStatusFilter = [\"NOPE\"]\n}\n", false)
+	add("entity duplicate summary", "entity Foo {\n  key fooId key:id62 {\n    primary = true\n  }\n  status ACTIVE\n  summary A {\n    field x string\n  }\n  summary A {\n    field y string\n  }\n}\n", false)
 	add("map without item type", "object Foo {\n  field a map\n}\n", true)
 	add("array without item type", "object Foo {\n  field a array\n}\n", true)
 	add("field without type", "object Foo {\n  field a\n}\n", true)
